@@ -18,6 +18,21 @@ def computedRule : Comdex.Gen.Genesis.Rule → Option Rule
   | .zero => some .zero
   | .notRestored => some .notRestored
 
+def ruleName : Comdex.Gen.Genesis.Rule → String
+  | .stored _ => "stored"
+  | .maxId _ => "maxId"
+  | .lastId _ => "lastId"
+  | .count _ => "count"
+  | .zero => "zero"
+  | .notRestored => "notRestored"
+
+/-- `<counter prefix>.<restoration rule>` — the identity of a counter in findings and monitor names: changing HOW a counter is
+restored makes it a different finding -/
+def counterTag (m : Module) (p : String) : String :=
+  match m.counters.find? (fun c => c.pfx == p) with
+  | some c => p ++ "." ++ ruleName c.rule
+  | none => p
+
 def computedCounters (m : Module) : List Counter :=
   m.counters.filterMap fun c => (computedRule c.rule).map fun r => ⟨c.pfx, r⟩
 
@@ -60,7 +75,12 @@ def importGaps (ms : List Module) : List (String × String) :=
 
 /-- id counters / length keys not restored from a stored genesis value -/
 def counterGaps (ms : List Module) : List (String × String) :=
-  ms.flatMap fun m => (computedCounters m).map fun c => (m.name, c.pfx)
+  ms.flatMap fun m => (computedCounters m).map fun c => (m.name, counterTag m c.pfx)
+
+/-- stores InitGenesis writes although nothing is exported for them: not read by ExportGenesis and not rebuilt from a genesis
+field that ExportGenesis fills from some store -/
+def unsourcedGaps (ms : List Module) : List (String × String) :=
+  ms.flatMap fun m => ((derivedOf m).filter fun p => !(m.flows.any fun f => f.2.2.contains p && !f.2.1.isEmpty)).map fun p => (m.name, p)
 
 /-- stores whose import can stop silently half-way -/
 def fragileGaps (ms : List Module) : List (String × String) :=
